@@ -15,13 +15,14 @@ from engine.explore import Violation
 
 
 class Responder:
-    def __init__(self, c, ports, wmin=3, rmin=6, qmax=3, mem_init=None, addr_ok=None, name="core", decoupled=False, wq_depth=2):
+    def __init__(self, c, ports, wmin=3, rmin=6, qmax=3, mem_init=None, addr_ok=None, name="core", decoupled=False, wq_depth=2, addr_base=0):
         """decoupled=True models a native port that sits behind stream buffering (clock-domain-crossing or width-converted port as returned
         by LiteDRAMCrossbar.get_port): write data is an ordinary stream whose ready is independent of the commands (a beat moves when
         valid & ready and is queued), a write takes effect when its command was accepted AND its beat has been queued, and read data is
         offered with valid held until ready.  Frontends must work on such ports as well."""
         self.c = c; self.ports = ports; self.wmin = wmin; self.rmin = rmin; self.qmax = qmax
         self.decoupled = decoupled; self.wq_depth = wq_depth
+        self.addr_base = addr_base          # the addressed window starts here on the port (harnesses that exercise the top of the address range)
         self.mem_init = mem_init or (lambda a: 0)
         self.addr_ok = addr_ok or (lambda p, a: True)
         ii = c.ii
@@ -157,7 +158,7 @@ class Responder:
             ncq.append((p, we, a, age + 1 if age < lim else age))
         for k in range(self.np):
             if (rb >> k) & 1 and self.r_valid[k](S, I, O):
-                we = self.r_we[k](S, I, O); a = self.r_addr[k](S, I, O)
+                we = self.r_we[k](S, I, O); a = self.r_addr[k](S, I, O) - self.addr_base
                 if self.modes[k] == "read": we = 0
                 if self.modes[k] == "write": we = 1
                 if not self.addr_ok(k, a):
